@@ -68,7 +68,7 @@ func (bdb *BlockDB) Create() error {
 	if bdb.index == nil {
 		bdb.SetIndex(newMapIndex())
 	}
-	bdb.dataFile, err = os.OpenFile(bdb.getDataFileName(), os.O_RDWR|os.O_CREATE, 0644)
+	bdb.dataFile, err = os.OpenFile(bdb.getDataFileName(), os.O_RDWR|os.O_CREATE|os.O_TRUNC, 0644)
 	return err
 }
 
@@ -226,7 +226,7 @@ func (bdb *BlockDB) Delete() error {
 }
 
 func (bdb *BlockDB) saveHeader() error {
-	headerFile, err := os.OpenFile(bdb.getHeaderFileName(), os.O_RDWR|os.O_CREATE, 0644)
+	headerFile, err := os.OpenFile(bdb.getHeaderFileName(), os.O_RDWR|os.O_CREATE|os.O_TRUNC, 0644)
 	if err != nil {
 		return err
 	}
